@@ -93,7 +93,7 @@ def run(ctx, replay=None):
         if t['cfg']['kind'] != 'model':
             continue
         for si, s in enumerate(t['steps']):
-            if s['a'] == 'Rename' and s['args'][0] == 'ok' and len(probes) == 0:
+            if s['a'] == 'Return' and s['args'][0] == 'ok' and len(probes) == 0:
                 p = copy.deepcopy(t)
                 p['steps'] = p['steps'][:si + 1]
                 p['steps'][si]['post']['main'] = dict(p['steps'][si]['post']['main'], b='B' if p['steps'][si]['post']['main']['b'] == 'A' else 'A')
